@@ -20,9 +20,23 @@ type env09 struct {
 	outer *env09
 }
 
+// a name bound to nil: the nearest binding wins, so it hides every outer binding of the name,
+// and reads as unbound
+const nil09 = -1
+
+func vs09(v int) string {
+	if v == nil09 {
+		return "nil"
+	}
+	return fmt.Sprint(v)
+}
+
 func (e *env09) get(n string) (int, bool) {
 	for c := e; c != nil; c = c.outer {
 		if v, ok := c.vars[n]; ok {
+			if v == nil09 {
+				return 0, false
+			}
 			return v, true
 		}
 	}
@@ -49,7 +63,7 @@ func render09(items []sitem, env *env09, parts map[string]string, ctr *int, src,
 				out.WriteString("-")
 			}
 		case "let":
-			src.WriteString(fmt.Sprintf("<%% let %s = %d %%>", it.Name, it.Val))
+			src.WriteString(fmt.Sprintf("<%% let %s = %s %%>", it.Name, vs09(it.Val)))
 			env.vars[it.Name] = it.Val
 		case "set":
 			if _, ok := env.get(it.Name); !ok {
@@ -112,24 +126,24 @@ func render09(items []sitem, env *env09, parts map[string]string, ctr *int, src,
 			var bsrc strings.Builder
 			switch it.Kind {
 			case "for":
-				src.WriteString(fmt.Sprintf("<%%= for (v) in [%d] { %%>", it.Val))
+				src.WriteString(fmt.Sprintf("<%%= for (v) in [%s] { %%>", vs09(it.Val)))
 				render09(it.Body, inner, parts, ctr, src, out)
 				src.WriteString("<% } %>")
 			case "fn":
 				src.WriteString(fmt.Sprintf("<%% let fn%d = fn(v) { %%>", id))
 				render09(it.Body, inner, parts, ctr, src, out)
-				src.WriteString(fmt.Sprintf("<%% } %%><%%= fn%d(%d) %%>", id, it.Val))
+				src.WriteString(fmt.Sprintf("<%% } %%><%%= fn%d(%s) %%>", id, vs09(it.Val)))
 			case "partial":
 				render09(it.Body, inner, parts, ctr, &bsrc, out)
 				name := fmt.Sprintf("part%d", id)
 				parts[name] = bsrc.String()
-				src.WriteString(fmt.Sprintf("<%%= partial(\"%s\", {v: %d}) %%>", name, it.Val))
+				src.WriteString(fmt.Sprintf("<%%= partial(\"%s\", {v: %s}) %%>", name, vs09(it.Val)))
 			case "content":
 				src.WriteString(fmt.Sprintf("<%% contentFor(\"c%d\") { %%>", id))
 				render09(it.Body, inner, parts, ctr, src, out)
-				src.WriteString(fmt.Sprintf("<%% } %%><%%= contentOf(\"c%d\", {v: %d}) %%>", id, it.Val))
+				src.WriteString(fmt.Sprintf("<%% } %%><%%= contentOf(\"c%d\", {v: %s}) %%>", id, vs09(it.Val)))
 			case "blkctx":
-				src.WriteString(fmt.Sprintf("<%%= blkctx({v: %d}) { %%>", it.Val))
+				src.WriteString(fmt.Sprintf("<%%= blkctx({v: %s}) { %%>", vs09(it.Val)))
 				render09(it.Body, inner, parts, ctr, src, out)
 				src.WriteString("<% } %>")
 			}
@@ -163,7 +177,11 @@ func gen09x(r *Rng, depth int, top bool) []sitem {
 		default:
 			if depth > 0 {
 				k := []string{"for", "fn", "partial", "content", "blkctx"}[r.Intn(5)]
-				items = append(items, sitem{Kind: k, Val: 1 + r.Intn(8), Body: gen09x(r, depth-1, false)})
+				val := 1 + r.Intn(8)
+				if r.Intn(8) == 0 {
+					val = nil09
+				}
+				items = append(items, sitem{Kind: k, Val: val, Body: gen09x(r, depth-1, false)})
 			} else {
 				items = append(items, sitem{Kind: "probe", Name: name})
 			}
@@ -244,6 +262,15 @@ func init() {
 			e.Distinct(c.Tmpl)
 			if want := "9|9[v=3;]"; o.Class != "OK" || o.Out != want {
 				e.Violate("c09-scope", fmt.Sprintf("%q rendered %q (%s %s), want %q: the hash passed as data must not become the callee's scope", c.Tmpl, o.Out, o.Class, o.Msg, want), map[string]interface{}{"case": c, "observed": o})
+			}
+		}
+		// names bound to nil inside a scope (parameter passed nil, loop over [nil], let x = nil, data
+		// {v: nil}): the binding hides the outer variable of the same name while the scope lasts
+		for _, k1 := range kinds {
+			for _, val := range []int{nil09, 3} {
+				inner := []sitem{{Kind: "probe", Name: "v"}, {Kind: "probe", Name: "a"}, {Kind: "let", Name: "a", Val: nil09}, {Kind: "probe", Name: "a"}, {Kind: "let", Name: "b", Val: 5},
+					{Kind: k1, Val: nil09, Body: []sitem{{Kind: "probe", Name: "v"}, {Kind: "probe", Name: "a"}, {Kind: "probe", Name: "b"}}}, {Kind: "probe", Name: "v"}}
+				judge(append([]sitem{{Kind: "let", Name: "a", Val: 1}, {Kind: "let", Name: "v", Val: 2}, {Kind: k1, Val: val, Body: inner}}, tail...), "nil-binding")
 			}
 		}
 		n := 120
